@@ -465,6 +465,20 @@ func (c11) Run(c *Case, st *Stats) []Violation {
 						}
 					}
 				case "json":
+					if op.Seed%4 == 0 {
+						// a stream written to a sink that fails part-way: reported, and it must leave
+						// nothing behind that shows up in a later stream
+						fw := &FaultWriter{Limit: int(op.Seed>>3) % 24, Err: errInjected}
+						bad := make(chan jsonRow, 2)
+						bad <- jsonRow{S: "stale value of a failed stream", I: 424242}
+						bad <- jsonRow{S: "second stale value", I: 434343}
+						close(bad)
+						if err := helper.ChanToJSON(bad, fw); err == nil {
+							add("helper.ChanToJSON", "io-error-not-reported", "json", "the sink failed after "+fmt.Sprint(fw.Limit)+" bytes and ChanToJSON returned nil")
+							return
+						}
+						st.Faults["json-sink-fails-part-way"]++
+					}
 					if op.From > 0 {
 						// scalar element types: string, float64, int64, bool, []string
 						ok, why := true, ""
